@@ -186,6 +186,8 @@ def run(ctx):
     with open(bp, "w") as f:
         for i, b in enumerate(behaviours):
             f.write(json.dumps(dict(b=i, cfg=b["cfg"], steps=[dict(k=s["k"], n=s["n"], ch=s["ch"]) for s in b["steps"]])) + "\n")
+    per_cfg, spec_dev = {}, {}
+
     def replay_cfg(bc):
         # ---- build
         gh = hashlib.sha1(json.dumps([s["cpp"] for s in cat]).encode()).hexdigest()[:16]
@@ -218,13 +220,16 @@ def run(ctx):
             rec = dict(engine="alg", config=bc["name"], event=d["event"], shape=sh, cfg=(b["cfg"] if b else None),
                        kinds=sorted(set(by_id[b["cfg"]["shape"]]["spec"]["kind"])) if b else [], asan=d.get("asan"), frame=d.get("frame"), where=d.get("where"),
                        steps=[(s["k"], s["n"], s["ch"]) for s in b["steps"]] if b else None,
+                       ext_stop=bool(b and any(s["k"] in ("X", "I") for s in b["steps"])),
                        what="%s while replaying %s: %s %s" % (d["event"], sh, d.get("asan", ""), d.get("frame", "")), detail=d.get("stderr_tail"))
-            if prop in mem_props or d["event"] in ("Terminate", "Hang", "Deadlock") and prop == "C01":
+            # C18 is about the type-erased wrappers: a memory event counts against it only in a shape that contains one
+            if (prop == "C02") or (prop == "C18" and "any" in rec["kinds"]) or (d["event"] in ("Terminate", "Hang", "Deadlock") and prop == "C01"):
                 rep.violation(rec)
             else:
                 rep.oos.append(dict(event=d["event"], shape=sh, frame=d.get("frame"), where=d.get("where"), asan=d.get("asan"),
                                     steps=rec["steps"], mode=(b["cfg"]["mode"] if b else None), detail=(d.get("stderr_tail") or "")[-600:]))
         tainted = set(d["x"] for d in deaths)
+        per_cfg[bc["name"]] = dict(got=got, tainted=tainted)
         for x, b in enumerate(behaviours):
             r = got.get(x)
             if r is None or x in tainted:
@@ -256,6 +261,11 @@ def run(ctx):
                 rep.drift += 1
                 if rep.drift <= 3:
                     rep.note("drift in %s step %s: %s" % (sh["text"], at, list(diffs.items())[:2]))
+            if hard and prop == "C20":
+                # C20 is about configurations agreeing with each other: a deviation from the specification that every
+                # configuration shows identically belongs to C05/C04/... and is decided there
+                spec_dev.setdefault(bc["name"], {})[x] = sorted(hard)
+                hard = {}
             if hard:
                 nviol += 1
                 steps = [(s["k"], s["n"], s["ch"]) for s in b["steps"]]
@@ -368,6 +378,37 @@ def run(ctx):
         names = ["cxx17-debug"]
     for nm in names:
         replay_cfg(CFGS[nm])
+    if prop == "C20" and len(names) > 1:
+        ref = names[0]
+        ndiff = 0
+        for nm in names[1:]:
+            for x, b in enumerate(behaviours):
+                a, c = per_cfg[ref]["got"].get(x), per_cfg[nm]["got"].get(x)
+                ta, tc = x in per_cfg[ref]["tainted"], x in per_cfg[nm]["tainted"]
+                if a is None or c is None or ta or tc:
+                    if (a is None) != (c is None) or ta != tc:
+                        ndiff += 1
+                        rep.violation(dict(engine="alg", event="ConfigDiffers", configs=[ref, nm], shape=by_id[b["cfg"]["shape"]]["spec"]["text"],
+                                           what="%s: execution completes in one configuration only (%s: %s, %s: %s)" % (
+                                               by_id[b["cfg"]["shape"]]["spec"]["text"], ref, "missing/tainted" if (a is None or ta) else "ok", nm, "missing/tainted" if (c is None or tc) else "ok")))
+                    continue
+                oa = [norm_obs_got(o) if "error" not in o else o for o in a["obs"]]
+                oc = [norm_obs_got(o) if "error" not in o else o for o in c["obs"]]
+                for o in oa + oc:
+                    for r in o.get("root", []):
+                        r.pop("inStart", None)
+                if oa != oc or a["live"] != c["live"] or bool(a["bad"]) != bool(c["bad"]):
+                    ndiff += 1
+                    sh = by_id[b["cfg"]["shape"]]["spec"]
+                    rep.violation(dict(engine="alg", event="ConfigDiffers", configs=[ref, nm], shape=sh["text"], kinds=sorted(set(sh["kind"])), mode=b["cfg"]["mode"],
+                                       steps=[(s["k"], s["n"], s["ch"]) for s in b["steps"]],
+                                       what="%s: observations differ between configurations %s and %s [modes %s, steps %s]" % (
+                                           sh["text"], ref, nm, json.dumps(b["cfg"]["mode"], sort_keys=True), [(s["k"], s["n"], s["ch"]) for s in b["steps"]])))
+        devs = set(json.dumps(v, sort_keys=True) for v in spec_dev.values())
+        rep.note("configurations compared pairwise against %s: %d differing executions; deviations from Senders.tla shared by all configurations: %d executions (decided by C05/C04/C11/C12)" % (
+            ref, ndiff, len(next(iter(spec_dev.values()), {}))))
+        if len(devs) > 1:
+            rep.note("the set of executions deviating from the specification is not the same in every configuration (see ConfigDiffers violations)")
     for b in behaviours[:2]:
         rep.sample(dict(kind="tlc-behaviour", shape=by_id[b["cfg"]["shape"]]["spec"]["text"], modes=b["cfg"]["mode"],
                         steps=[dict(k=s["k"], n=s["n"], ch=s["ch"], expect_root=s["exp"]["root"], expect_seen=s["exp"]["seen"]) for s in b["steps"]]))
